@@ -10,6 +10,7 @@ Scalar tags:  ["str", s] ["bool", b] ["int", n] ["dec", "12.50"] ["tok", "CHECKI
 """
 from __future__ import annotations
 
+import copy
 import datetime as dt
 import decimal
 import functools
@@ -183,7 +184,11 @@ def _trimmed(s):
 def string_st(limit, markup=True):
     cap = limit if limit is not None else 64
     short = min(cap, 10)
-    pool = ["x", "A b", "é漢", "a,b", "1.5", "Tom's", 'say "hi"', "a b", "a  b", "ACME   HARDWARE  CO"]
+    pool = ["x", "A b", "é漢", "a,b", "1.5", "Tom's", 'say "hi"', "a b", "a  b", "ACME   HARDWARE  CO",
+            # not NFC-stable (decomposed accent, Angstrom / Ohm signs, CJK compatibility ideograph): strings are code-point sequences
+            "Ame\u0301lie", "\u212b\u2126", "\uf900x",
+            # values that look like another type's text or like a placeholder
+            "0", "000000", "N", "Y", "NONE", "null", "-1", "1e5", "20200101"]
     if markup:
         pool += ["AT&T", "a<b", "a>b", "<&>", "a & b < c", "R&amp;D", "&lt;", "a&nbsp;b", "&quot;x&quot;", "it&apos;s", "&amp;nbsp;x", "&#38;", "a&b;c", "AT&amp;amp;T", "x&amp;nbsp;y", "&amp;lt;b&amp;gt;", "&amp;quot;q&amp;quot;", "&amp;amp;amp;"]
     base = st.one_of(
@@ -632,6 +637,10 @@ def draw_instance(draw, cls, depth, markup, max_members=3, p0=0.5):
                 if (cls.__name__, mcls.__name__) in SKIP_MEMBERS:
                     continue
                 lst.append(draw_instance(draw, mcls, depth + 1, markup, max_members, p0))
+        if lst and draw(st.integers(0, 5)) == 0:
+            # a list is a sequence, not a set: the same member may occur twice (exact copy, anywhere)
+            src = lst[draw(st.integers(0, len(lst) - 1))]
+            lst.insert(draw(st.integers(0, len(lst))), copy.deepcopy(src))
     desc = {"cls": cls.__name__, "kw": kw, "list": lst}
     _fix_list_groups(desc, draw, depth, markup)
     fx = FIXERS.get(cls.__name__)
